@@ -69,6 +69,24 @@ def run_once(case: Dict[str, Any], oracles: Sequence[str], res: CaseResult, M: M
         res.viol("build-error", f"building / selecting raised {type(out.build_exc).__name__}: {out.build_exc}")
         return None
     assert out.ex is not None
+    if out.reconf_state is not None:
+        stats_state = out.reconf_state if isinstance(out.reconf_state, str) else out.reconf_state[0]
+        if stats_state == "third-state":
+            res.viol("refused-config-changed-state", "a configuration that was refused (unusable last entry) left an attribute that is neither "
+                     f"the old nor the new value: {out.reconf_state[1]}")
+            return None
+        if stats_state == "refused-mixed":
+            res.skipped = "refused-config-partly-applied"
+            return None
+        if stats_state == "refused-old" or out.mc_shown is not None:
+            # the model follows what the API shows after the refused call
+            c2 = dict(case)
+            if stats_state == "refused-old":
+                c2.pop("reconf", None)
+                c2.pop("reconf_seq", None)
+            if out.mc_shown is not None:
+                c2["mc"] = out.mc_shown
+            M = Model(c2)
     T = oracle.Trace(M, out)
     stats: Dict[str, Any] = {}
     spawn_fails = [e for e in out.ex.events if e["k"] == "SPAWNFAIL"]
@@ -129,6 +147,7 @@ def run_once(case: Dict[str, Any], oracles: Sequence[str], res: CaseResult, M: M
     stats["n_entered"] = len(T.enter)
     stats["raised"] = type(out.exc).__name__ if out.exc is not None else None
     stats["spawn_failed"] = spawn_failed
+    stats["reconf_state"] = out.reconf_state if out.reconf_state is None or isinstance(out.reconf_state, str) else out.reconf_state[0]
     stats["spawn_failed_inflight"] = any(e.get("workers_alive") for e in spawn_fails)
     stats["failed_ran"] = [s for s in case.get("failing", []) if any(not x["ok"] for x in T.exit.get(s, []))]
     inflight_at_fail = 0
@@ -188,6 +207,10 @@ def evaluate(case: Dict[str, Any], oracles: Sequence[str], nontrivial: Callable[
         res.cls("warm-call-before")
     if case.get("early_exec"):
         res.cls("executor-created-before-reconfiguration")
+    for s_ in all_stats:
+        if s_.get("reconf_state"):
+            res.cls("config-with-unusable-entry-" + s_["reconf_state"])
+            break
     if case.get("group_conf"):
         res.cls("config-by-group-tag")
     if case.get("spawn_fail") is not None:
@@ -336,6 +359,16 @@ def sched_case(
             case["reconf"] = {s: draw(st.integers(-3, 5)) for s in some[:half]}
         if some[half:]:
             case["reconf_seq"] = {s: draw(st.booleans()) for s in some[half:]}
+    if (case.get("reconf") or case.get("reconf_seq")) and gen.chance(draw, 0.25):
+        done_ = set(case.get("reconf") or {}) | set(case.get("reconf_seq") or {})
+        rest_ = [s for s in sites if s not in done_]
+        if rest_:
+            # fault at a point: the reconfiguration carries one unusable entry (after all the usable ones)
+            case["reconf_bad"] = {"site": draw(st.sampled_from(rest_)), "value": draw(st.sampled_from(["x", 1.5, None]))}
+            if draw(st.booleans()):
+                case["reconf_bad"]["mc"] = draw(st.integers(1, 5))
+            elif draw(st.booleans()):
+                case["reconf_bad"] = {"site": None, "mc": draw(st.sampled_from([0, -1, "2"]))}  # the unusable entry is the limit
     early_ok = bool(case.get("reconf_seq")) and case.get("call") != "setup"
     if early_ok and gen.chance(draw, 0.4):
         # history: executor created, THEN is_sequential reconfigured, then the executor is run (priorities are left
